@@ -304,9 +304,16 @@ class Session:
 
     def send(self, addr, text, desc):
         """desc: model-level description of the message (independent of the implementation's parser)."""
+        c = self.d.conns[addr]
+        if c.task.done() or len(c.reader._buffer) != 0 or c.reader._eof or c.reader._exception is not None:
+            # the peer cannot send on a connection the server has ended, after its own EOF/abort, or a second message while the
+            # first is unread (it would be coalesced into one malformed chunk): not an event of the model, skipped
+            self.skipped_sends = getattr(self, "skipped_sends", 0) + 1
+            return False
         self.d.send(addr, text)
         self.trace.append((f"LArrive {self.aid(addr)}%N {self.chunk_term(desc)}", self.ser()))
         self.events.append(["send", list(addr), text if isinstance(text, str) else text.hex(), desc])
+        return True
 
     def eof(self, addr):
         self.d.eof(addr)
